@@ -174,6 +174,14 @@ func c20Attempt() {
 		ctx, cancel = eo, eo.cancel
 		simrt.Probe("context_cancelled_through_err_only")
 	}
+	if !errOnly && !byDeadline && simrt.Chance(1, 5) {
+		// cancellation from one context, values from another one that stays live (request values, server
+		// lifetime): whether this context is cancelled is what ITS Err says
+		vals, vcancel := context.WithCancel(context.Background())
+		defer vcancel()
+		ctx = c20Split{ctx, vals}
+		simrt.Probe("context_with_values_from_a_live_context")
+	}
 	ctxDone := ctx.Done() // fetched here so that the step hook below polls it without touching the context's lock
 	st := &c20State{count: count, rate: rate}
 	tickReqsAtCancel := 0 // ticker (re)arm requests logged when cancel() returned
@@ -446,3 +454,11 @@ func c20Attempt() {
 		simrt.Failf("C20.producer-alive-after-cancel", "at the end a library goroutine is still there: %s", desc)
 	}
 }
+
+// c20Split takes Done/Err/Deadline from one context and its values from another.
+type c20Split struct {
+	context.Context
+	vals context.Context
+}
+
+func (c c20Split) Value(k any) any { return c.vals.Value(k) }
